@@ -252,11 +252,11 @@ End Fuel.
 
 (* simplify_unused_sound without the "fuel did not run out" hypothesis *)
 Theorem simplify_unused_sound_nofuel_all : forall (W : world), world_ok W ->
-  forall e tr res,
+  forall noOptChain e tr res,
     flags_ok W e -> no_bad W e ->
     eval W tr e = Some res ->
-    same_effects (Some res) (eval_unused W tr (simplify_unused (w_unbound W) true e)).
+    same_effects (Some res) (eval_unused W tr (simplify_unused (w_unbound W) noOptChain e)).
 Proof.
-  intros W Wok e tr res Hf Hn Hev.
-  apply (simplify_unused_sound_partial_all W Wok e tr res Hf Hn); [apply simplify_unused_total_all | exact Hev].
+  intros W Wok noOC e tr res Hf Hn Hev.
+  apply (simplify_unused_sound_partial_all W Wok noOC e tr res Hf Hn); [apply simplify_unused_total_all | exact Hev].
 Qed.
